@@ -122,6 +122,8 @@ def collect(ctx, sub="c01", extra=()):
             d["srcplain"] = r[2] if len(r) > 2 else ""
         elif r[1] == "SRCERR":
             d["srcerr"] = r[2] if len(r) > 2 else ""
+        elif r[1] == "ALPHA":
+            d["alpha"] = tuple(r[2:7]) + ("",) * (5 - len(r[2:7]))
         elif r[1] == "PPRINT":
             d["pprint"] = (r[2], vlib.unesc(r[3]) if len(r) > 3 else "")
         elif r[1] == "REJECT":
@@ -139,7 +141,7 @@ def collect(ctx, sub="c01", extra=()):
             progs.pop("corpus:" + w[len("corpus/"):], None)
     return progs, feats
 
-GENERATED = ("gen:", "eff:", "wrap:", "nest:", "prog:")
+GENERATED = ("gen:", "eff:", "wrap:", "nest:", "prog:", "names:")
 
 def evaluate(ctx, progs):
     # generated programs are small: they run with a small fuel budget (GV_GEN_FUEL), so that a stage
@@ -183,6 +185,59 @@ def expected_matches(pid, exp, got):
         # the recorded output of a failing run continues with Go's panic report
         return exp.startswith(vlib.unesc(out)) and "panic" in exp
     return False
+
+def alpha_twins(ctx, progs):
+    """the name catalogue (harness/src/namecat.rs): a program whose local binder is spelled like a package-level name
+    (`names:…:a`) and its twin with a fresh binder name (`…:b`) differ in nothing lexical scoping can see, so
+    (1) CST->AST lowering commutes with the renaming, (2) both are accepted, (3) every stage of both prints the same.
+    None of the three goes through a model of the compiler."""
+    cov = {"pairs": 0, "lowering_commutes_with_renaming": 0, "accepted_alike_and_every_stage_prints_the_same": 0,
+           "split_into_single_cells": 0, "cells(use-position/binder-kind)": {}, "spellings": {}}
+    for pid, d in progs.items():
+        if not (pid.startswith("names:") and pid.endswith(":a")):
+            continue
+        tw = progs.get(pid[:-2] + ":b")
+        al = d.get("alpha")
+        if tw is None or al is None:
+            ctx.broken_ties.append(("name catalogue", f"{pid}: twin or lowering row missing"))
+            continue
+        cov["pairs"] += 1
+        cov["split_into_single_cells"] += ":c" in pid[len("names:"):]
+        cov["spellings"][al[2]] = cov["spellings"].get(al[2], 0) + 1
+        for c in al[4].split():
+            cov["cells(use-position/binder-kind)"][c] = cov["cells(use-position/binder-kind)"].get(c, 0) + 1
+        info = {"id": pid, "binder_spelling": al[2], "fresh_spelling_in_the_twin": al[3], "cells(use-position/binder-kind)": al[4],
+                "src": d.get("src"), "twin_src": tw.get("src")}
+        if al[0] == "ok":
+            cov["lowering_commutes_with_renaming"] += 1
+        else:
+            ctx.report({"oracle": "lowering-alpha", "kind": "lowered-differently-under-a-package-level-spelling"},
+                       "CST->AST lowering of a function depends on how a local binder is spelled: renaming the binder (and the uses it binds) "
+                       "to a fresh name of the same length changes more of the lowered function than that name", dict(info, detail=vlib.unesc(al[1])[:1500]))
+        state = lambda x: "rejected" if "reject" in x else "panics" if "panic" in x else "accepted"
+        if state(tw) != "accepted":
+            ctx.broken_ties.append(("name catalogue: the twin (fresh binder names) is not accepted — generator or unrelated defect",
+                                    f"{pid}: {tw.get('reject') or tw.get('panic')}"))
+            continue
+        if state(d) != "accepted":
+            ctx.report({"oracle": "alpha-twin", "kind": f"{state(d)}-under-a-package-level-spelling"},
+                       f"a program is {state(d)} only because a local binder is spelled like a package-level name (the twin with a fresh name is accepted)",
+                       dict(info, diagnostics=str(d.get("reject") or d.get("panic"))[:600]))
+            continue
+        oa, ob = d.get("out") or {}, tw.get("out") or {}
+        diff = [st for st in CHAIN if oa.get(st) and ob.get(st) and (oa[st][0], oa[st][1]) != (ob[st][0], ob[st][1])]
+        if diff:
+            st = diff[0]
+            la, lb = vlib.unesc(oa[st][1]).split("\n"), vlib.unesc(ob[st][1]).split("\n")
+            first = next(((x, y) for x, y in zip(la + [""] * len(lb), lb + [""] * len(la)) if x != y), ("", ""))
+            ctx.report({"oracle": "alpha-twin", "kind": "behaves-differently-under-a-package-level-spelling", "first_divergent_stage": st},
+                       "a program and its twin, which differ only in the spelling of a local binder, do not print the same",
+                       dict(info, stages_that_differ=diff, first_differing_line={"program": first[0], "twin": first[1]},
+                            outcomes={k: {"status": v[0], "stdout": vlib.unesc(v[1])[:600]} for k, v in oa.items() if v},
+                            twin_outcomes={k: {"status": v[0], "stdout": vlib.unesc(v[1])[:600]} for k, v in ob.items() if v}))
+        else:
+            cov["accepted_alike_and_every_stage_prints_the_same"] += 1
+    return cov
 
 def run(ctx):
     ctx.extract()
@@ -338,7 +393,9 @@ def run(ctx):
             if m:
                 n_exp_ok += 1
             else:
-                ctx.report({"oracle": "recorded-output", "program": pid},
+                # (the name catalogue carries the output its programs print BY CONSTRUCTION: one signature for the stream)
+                ctx.report({"oracle": "output-by-construction", "stream": "names"} if pid.startswith("names:") else {"oracle": "recorded-output", "program": pid},
+                           "Go.Sem of the emitted Go differs from the output the program prints by construction" if pid.startswith("names:") else
                            "Go.Sem of the emitted Go differs from the output recorded from real Go",
                            dict(payload, expected=d["expect"][:400]))
             # the same validation for SrcSem: the source meaning must be what real Go printed
@@ -347,7 +404,8 @@ def run(ctx):
                 if expected_matches(pid, d["expect"], o["src"]):
                     n_exp_src_ok += 1
                 else:
-                    ctx.report({"oracle": "recorded-output-src", "program": pid},
+                    ctx.report({"oracle": "output-by-construction-src", "stream": "names"} if pid.startswith("names:") else {"oracle": "recorded-output-src", "program": pid},
+                               "SrcSem of the source program differs from the output the program prints by construction" if pid.startswith("names:") else
                                "SrcSem of the source program differs from the output recorded from real Go",
                                dict(payload, expected=d["expect"][:400]))
         if len(vlib.unesc(ref[1])) > 0:
@@ -368,9 +426,17 @@ def run(ctx):
             payload = dict(payload, src_with_declaration_order_initialisers={"status": a[0], "stdout": vlib.unesc(a[1])[:400]})
         ctx.report({"oracle": "stagewise", "first_divergent_stage": div, "kind": kind},
                    f"the {div} stage no longer behaves like the {ref_stage} stage ({blame})", dict(payload, blamed=blame))
+    # the name catalogue: program / twin pairs
+    alpha_cov = alpha_twins(ctx, progs)
     # pipeline composition: composite middle-end model vs the real dumps, fragment of `pipeline_preserves`
+    # (of the name catalogue one program per declaring file and spelling, and no twins: the others differ from it in
+    # which binder kind goes with which use position / in one identifier, and the composite model costs seconds on each)
     _t0 = _t.time()
-    pipe_cov = c01pipe.evaluate(ctx, progs)
+    first_of_group = {}
+    for k in progs:
+        if k.startswith("names:") and k.endswith(":a"):
+            first_of_group.setdefault(tuple(k.split(":")[1:3]), k)
+    pipe_cov = c01pipe.evaluate(ctx, {k: v for k, v in progs.items() if not k.startswith("names:") or k in first_of_group.values()})
     _ph['c01pipe'] = round(_t.time() - _t0, 1)
     rejected = sum(1 for d in progs.values() if "reject" in d)
     panics = [d for d in progs.values() if "panic" in d]
@@ -379,7 +445,7 @@ def run(ctx):
         "programs": n_prog, "disagreements_checked": len(ctx.violations),
         "samples": samples or [{"id": "corpus only"}],
         "evaluations": n_prog * len(CHAIN), "distinct_nontrivial": len(distinct),
-        "rule": "one program = 82-program corpus (74 single-file pipeline programs here) + type-directed generated programs over the feature lattice; every accepted program's real "
+        "rule": "one program = 82-program corpus (74 single-file pipeline programs here) + type-directed generated programs over the feature lattice + the name catalogue (a local binder of every kind spelled like a package-level name, in every use position, with fresh-named twins); every accepted program's real "
                 "Core/Mono/Lift/ANF dumps run under Sem and its real Go AST under Go.Sem, its real ast::File(s) under SrcSem (the reference); non-trivial = prints something; distinct by stdout and Go size",
         "all_stages_agree": n_agree, "with_recorded_output": n_exp, "recorded_output_reproduced": n_exp_ok,
         "reference_is_source_level(SrcSem)": n_from_src, "reference_fell_back_to_core_or_mono": sum(fallback.values()),
@@ -392,6 +458,7 @@ def run(ctx):
         "generator_rejected": rejected, "compiler_panics_seen(owned by C04)": len(panics),
         "generator_features": feats,
         "pipeline_composition": pipe_cov,
+        "name_catalogue(local binder spelled like a package-level name, program vs fresh-named twin)": alpha_cov,
     }
     # ---- the Go back end (go/compile.rs): model = implementation, Sem(ANF) vs Go.Sem(Go) on its stream
     _t0 = _t.time()
@@ -399,7 +466,7 @@ def run(ctx):
     _ph["gocomp"] = round(_t.time() - _t0, 1)
     cov["phases_s"] = _ph
     ctx.assumptions += [
-        "SrcSem (lean/GomlVerif/Model/SrcSem.lean) on the real ast::File dumps is the source-level meaning whenever it decides (status not unsupported:…); it is validated, like Go.Sem, by reproducing the outputs recorded from real Go; it starts at ast::File, so CST->AST lowering is trusted here (C11/C12 own it)",
+        "SrcSem (lean/GomlVerif/Model/SrcSem.lean) on the real ast::File dumps is the source-level meaning whenever it decides (status not unsupported:…); it is validated, like Go.Sem, by reproducing the outputs recorded from real Go; it starts at ast::File, so CST->AST lowering is trusted here (C11/C12 own it) — except for which names are constructors: a node the lowering tagged as a constructor application whose bare name has a local binder in scope is read as a use / call of that binder (theorems src_local_binder_wins, src_local_callee_wins), and the name catalogue (harness/src/namecat.rs) checks, without any model, that a program whose local binder is spelled like a variant / struct / enum type / function / builtin prints what it must by construction, is accepted and behaves at every stage like its twin with a fresh binder name, and is lowered like that twin up to the name",
         "Sem (lean/GomlVerif/Model/Sem.lean) is the meaning of the IR stages (and the fallback reference); Go.Sem (Model/GoSem.lean) is our reading of the Go spec for the emitted subset, validated against the outputs recorded from real Go",
         "`go`: compared under the schedule that runs a spawned activation to completion at the spawn; real goroutine interleavings are outside the model",
         "floats: Go's shortest float formatting is not modelled; programs printing floats are compared only between stages that share the same formatting function",
